@@ -128,7 +128,8 @@ const entryplus3Baggage uint64 = 8 + // fileid
 	16 + // name_handle
 	8 // pointer
 
-// XXX inode locking order violated
+// Entries whose inode cannot be locked in order (e.g. ".." of a directory
+// whose parent has a smaller number) are passed to f with a nil inode.
 func Apply(dip *inode.Inode, op *fstxn.FsTxn, start uint64,
 	dircount uint64, maxcount uint64,
 	f func(*inode.Inode, string, common.Inum, uint64)) bool {
@@ -149,20 +150,23 @@ func Apply(dip *inode.Inode, op *fstxn.FsTxn, start uint64,
 			continue
 		}
 
-		// Lock inode, if this transaction doesn't own it already
+		// Lock inode, if this transaction doesn't own it already and if
+		// doing so respects the ascending lock order (the directory is held);
+		// otherwise the entry is reported without its inode (ip == nil).
 		var own bool = false
 		if op.OwnInum(de.inum) {
 			own = true
 			ip = op.GetInodeUnlocked(de.inum)
-		} else {
+		} else if de.inum > dip.Inum {
 			ip = op.GetInodeInum(de.inum)
-
+		} else {
+			ip = nil
 		}
 
 		f(ip, de.name, de.inum, off)
 
 		// Release inode early, if this trans didn't own it before.
-		if !own {
+		if !own && ip != nil {
 			op.ReleaseInode(ip)
 		}
 
